@@ -336,6 +336,26 @@ def _canon_digest(w) -> bytes:
     return hashlib.blake2b(repr(Q.canon(w)).encode(), digest_size=16).digest()
 
 
+def inflight_viol(pid: str, obs: dict, params: dict) -> list:
+    """What can be judged on a state that is still in flight: C09 - nothing may have gone wrong so far; C07 - every caller that HAS
+    finished is judged now (in time? own packet? error family?), because the canonical state that histories are merged on records that
+    a caller ended and with what, not when - so lateness must be caught on the transition on which the caller ends."""
+    viol = []
+    if pid == "C07":
+        viol = [x for x in oracle_c07(obs, params) if not x[0].startswith("C07:hang")]
+    else:
+        for e in obs["loop_exc"]:
+            viol.append((f"{pid}:loop-exception:{e[0]}:{e[2]}:{sig(e[1])}", f"unhandled in event loop: {e}"))
+        for r in obs["log_exc"]:
+            if r[1] == "AssertionError":
+                viol.append((f"{pid}:assert-tripped:{r[3]}:{sig(r[2])}", f"internal check tripped (logged): {r}"))
+    if obs["deadlock"]:
+        viol.append((f"{pid}:deadlock", obs["deadlock"]))
+    if obs["cap_hit"]:
+        viol.append((f"{pid}:livelock", "step cap"))
+    return viol
+
+
 def _bfs_expand(args):
     """Rebuild the state reached by history h (a fresh real world, the script replayed) and take every enabled action from it."""
     pid, params, h = args
@@ -352,19 +372,7 @@ def _bfs_expand(args):
         dig = _canon_digest(w2)
         terminal = a2 is None
         obs = Q.finish_script(w2, terminal)
-        viol = []
-        if terminal:
-            viol = ORACLES[pid](obs, params)
-        else:  # in flight: nothing may have gone wrong so far
-            for e in obs["loop_exc"]:
-                viol.append((f"{pid}:loop-exception:{e[0]}:{e[2]}:{sig(e[1])}", f"unhandled in event loop: {e}"))
-            for r in obs["log_exc"]:
-                if r[1] == "AssertionError":
-                    viol.append((f"{pid}:assert-tripped:{r[3]}:{sig(r[2])}", f"internal check tripped (logged): {r}"))
-            if obs["deadlock"]:
-                viol.append((f"{pid}:deadlock", obs["deadlock"]))
-            if obs["cap_hit"]:
-                viol.append((f"{pid}:livelock", "step cap"))
+        viol = ORACLES[pid](obs, params) if terminal else inflight_viol(pid, obs, params)
         summary = None
         if terminal:
             summary = (obs["final"]["state"], tuple(None if c is None else (c["res"][0] if c["res"] else None) for c in obs["callers"]), obs["probe"]["res"][0] if obs.get("probe") else None)
@@ -462,12 +470,4 @@ def bfs_replay(pid: str, rep: dict):
     obs = Q.finish_script(w, terminal)
     if terminal:
         return ORACLES[pid](obs, rep["params"])
-    v = []
-    for e in obs["loop_exc"]:
-        v.append((f"{pid}:loop-exception:{e[0]}:{e[2]}:{sig(e[1])}", f"unhandled in event loop: {e}"))
-    for r in obs["log_exc"]:
-        if r[1] == "AssertionError":
-            v.append((f"{pid}:assert-tripped:{r[3]}:{sig(r[2])}", f"internal check tripped (logged): {r}"))
-    if obs["deadlock"]:
-        v.append((f"{pid}:deadlock", obs["deadlock"]))
-    return v
+    return inflight_viol(pid, obs, rep["params"])
